@@ -103,6 +103,17 @@ class Program:
                 return v["name"]
         return None
 
+    def static_fn_targets(self, static_path):
+        """function paths stored (as fn pointers) in a static's initializer"""
+        it = self.items.get(strip_generics(static_path))
+        out = set()
+        if not it:
+            return out
+        for p in it.get("ptrs", []) or []:
+            if "fn" in p:
+                out.add(strip_generics(p["fn"]))
+        return out
+
     def ret_const(self, path, depth=0):
         """(adt, variant) when every assignment to the return place of the local function `path`
         is the same field-less enum constant (e.g. reset_keep always returns ReturnCode::Ok)"""
@@ -152,6 +163,10 @@ class Program:
             for c in f.callee_paths() | f.fn_refs():
                 if c not in seen:
                     work.append(c)
+            for st in f.static_refs():
+                for c in self.static_fn_targets(st):
+                    if c not in seen:
+                        work.append(c)
             if extra_edges and p in extra_edges:
                 for c in extra_edges[p]:
                     if c not in seen:
@@ -207,6 +222,8 @@ class Fn:
         self._live = None
         self.is_promoted = False
         self._promoted = {}
+        self._static_refs = None
+        self._debug_branches = None
 
     def __repr__(self):
         return "<Fn %s>" % self.path
@@ -662,10 +679,38 @@ class Fn:
                 regions[nm] = domsets.get(tb, set())
         return regions
 
+    @property
+    def debug_branches(self):
+        """switch blocks that implement the condition of a debug_assert!: one of their edges leads
+        straight to a diverging panic call expanded from debug_assert*"""
+        if self._debug_branches is None:
+            out = set()
+            for b in self.live:
+                if self.blocks[b]["t"]["k"] != "switch":
+                    continue
+                for lab, tb in self.succ[b]:
+                    cur = tb
+                    for _ in range(8):
+                        t = self.blocks[cur]["t"]
+                        if t["k"] == "call" and "t" not in t:
+                            if any(e.startswith("debug_assert") for e in t.get("exp", [])):
+                                out.add(b)
+                            break
+                        su = self.succ[cur]
+                        if len(su) != 1 or t["k"] == "switch":
+                            break
+                        cur = su[0][1]
+            self._debug_branches = out
+        return self._debug_branches
+
     # ---- atoms -------------------------------------------------------------------------------
-    def edge_atoms(self, bb, lab):
-        """atoms that hold when leaving block bb through the switch edge labelled lab"""
+    def edge_atoms(self, bb, lab, include_debug=False):
+        """atoms that hold when leaving block bb through the switch edge labelled lab.
+        Branches that belong to a debug_assert! expansion yield no atoms: they do not exist in
+        builds without debug assertions and must not count as guards."""
         t = self.blocks[bb]["t"]
+        if not include_debug and bb in self.debug_branches:
+            return []
         d = self.operand_expr(t["discr"])
         dty = t.get("discr_ty", "")
         return atoms_of(self, d, dty, lab)
@@ -740,6 +785,18 @@ class Fn:
                     if a.get("k") == "const" and "fn" in a:
                         out.add(strip_generics(a.get("resolved") or a["fn"]))
         return out
+
+    def static_refs(self):
+        """paths of statics referenced in live code"""
+        if self._static_refs is None:
+            out = set()
+            import json as _json
+            for bi in self.live:
+                txt = _json.dumps(self.blocks[bi])
+                for m in re.finditer(r'"static":\s*"([^"]+)"', txt):
+                    out.add(m.group(1))
+            self._static_refs = out
+        return self._static_refs
 
     # ---- statements ---------------------------------------------------------------------------
     def assignments(self, live_only=True):
